@@ -107,25 +107,25 @@ type family struct {
 	OnlySlot       int    // 0 = both slot lengths
 }
 
+// families are listed in the order in which they are run (a run deadline cuts the last ones first).
 func families(thorough bool) []family {
 	if !thorough {
 		return []family{
 			{Name: "full-len1", Alphabet: "full", MinLen: 1, MaxLen: 1, Batch: "all", Fresh: true},
 			{Name: "full-len2-five", Alphabet: "full", MinLen: 2, MaxLen: 2, Batch: "split3", OnlyPre: "five"},
 			{Name: "small-len2-empty", Alphabet: "small", MinLen: 2, MaxLen: 2, Batch: "split3", OnlyPre: "empty"},
-			{Name: "small-len3", Alphabet: "small", MinLen: 3, MaxLen: 3, Batch: "one+finest", OnlyPre: "five", OnlySlot: 2},
 			{Name: "onekey-len4", Alphabet: "onekey", MinLen: 4, MaxLen: 4, Batch: "finest", OnlyPre: "five", OnlySlot: 2},
+			{Name: "small-len3", Alphabet: "small", MinLen: 3, MaxLen: 3, Batch: "one+finest", OnlyPre: "five", OnlySlot: 2},
 		}
 	}
 	return []family{
 		{Name: "full-len1", Alphabet: "full", MinLen: 1, MaxLen: 1, Batch: "all", Fresh: true},
-		{Name: "full-len2", Alphabet: "full", MinLen: 2, MaxLen: 2, Batch: "all", Fresh: true},
-		{Name: "small-len3-five", Alphabet: "small", MinLen: 3, MaxLen: 3, Batch: "followed", OnlyPre: "five"},
-		{Name: "small-len3-empty", Alphabet: "small", MinLen: 3, MaxLen: 3, Batch: "split3", OnlyPre: "empty"},
-		{Name: "full-len3", Alphabet: "full", MinLen: 3, MaxLen: 3, Batch: "finest", OnlyPre: "five", OnlySlot: 2},
-		{Name: "small-len4", Alphabet: "small", MinLen: 4, MaxLen: 4, Batch: "finest", OnlyPre: "five", OnlySlot: 2},
 		{Name: "onekey-len4", Alphabet: "onekey", MinLen: 4, MaxLen: 4, Batch: "split3", OnlyPre: "five"},
-		{Name: "onekey-len5", Alphabet: "onekey", MinLen: 5, MaxLen: 5, Batch: "split3", OnlyPre: "five", OnlySlot: 2},
+		{Name: "onekey-len5", Alphabet: "onekey", MinLen: 5, MaxLen: 5, Batch: "finest", OnlyPre: "five", OnlySlot: 2},
+		{Name: "small-len3-five", Alphabet: "small", MinLen: 3, MaxLen: 3, Batch: "split3", OnlyPre: "five"},
+		{Name: "full-len2", Alphabet: "full", MinLen: 2, MaxLen: 2, Batch: "all", Fresh: true},
+		{Name: "small-len3-empty", Alphabet: "small", MinLen: 3, MaxLen: 3, Batch: "one+finest", OnlyPre: "empty"},
+		{Name: "small-len4", Alphabet: "small", MinLen: 4, MaxLen: 4, Batch: "finest", OnlyPre: "five", OnlySlot: 2},
 	}
 }
 
@@ -615,16 +615,16 @@ type pending struct {
 }
 
 type worker struct {
-	run      *ev.Run
-	c        combo
-	dirs     []string
-	tpls     []*template
-	n        int
-	pend     []pending
-	finals   map[string]bool
-	nontriv  int64
-	byBatch  map[string]int64
-	wantProc bool
+	run     *ev.Run
+	c       combo
+	dirs    []string
+	tpls    []*template
+	n       int
+	pend    []pending
+	finals  map[string]bool
+	nontriv int64
+	byBatch map[string]int64
+	sampled bool
 }
 
 func newWorker(run *ev.Run, c combo) *worker {
@@ -695,7 +695,8 @@ func (w *worker) one(cs caseSpec, fresh bool) {
 			w.finals[fmt.Sprintf("%016x", h.Sum64())] = true
 		}
 	}
-	if w.n%997 == 5 {
+	if w.n >= 300 && !w.sampled && len(cs.Batching.Cuts) > 1 && out.effective {
+		w.sampled = true
 		w.run.Sample(cs.String())
 	}
 	for _, v := range out.viols {
@@ -964,7 +965,7 @@ func main() {
 	}
 	run.Set("families", fd)
 	run.Set("rule", "DFS, no sampling: for every configuration {value placement node|segment|active|global} x {slot length 2,4} x unique, plus one non-unique configuration (segment, slot 2), from pre-state empty (keys 1,2,3) and from pre-state 10,20,30,40,50 (keys 20,30,35: an item in an inner node, an item in a leaf, an absent key; values small/5KB/empty), EVERY sequence of each family listed in 'families' (alphabet full = {add,upsert,update} x 3 keys x {small v<step>, 5 KB, empty} + remove x 3 keys + find+GetCurrentValue x 3 keys = 33 symbols; small = small values only = 15 symbols; onekey = {add small, upsert 5KB, update small, update empty, remove, find+GetCurrentValue} on the inner-node key only = 6 symbols) is run under EVERY batching of the family's mode (all = every split into 1..3 consecutive transactions x {all commit, any one rolled back}; followed = all commit, or one rolled back that is followed by a committed one, or the single transaction rolled back; split3 = one transaction / finest split into <=3 transactions all committed / the same with the middle (for 2 transactions: first) one rolled back; finest = only the finest split into <=3 transactions ([a][b][rest]), all committed; one+finest = one transaction, and the finest split, all committed). With slot length 2 the pre-state tree is root[20,40] over leaves [10][30][50] (non-unique: plus a duplicate of 20), with slot length 4 root[30] over [10,20][40,50]; the first enumerated key is the one held in the inner node. Each run = its own restored store folder on tmpfs, real infs transactions, step results compared with a sorted-multiset model (set of possible states for duplicates), then dump+Count read warm, after sopenv.ResetCaches(), and for fresh-process families by a new process. distinct_nontrivial = runs in which at least one mutating operation took effect (model result true); distinct_final_contents = distinct final model contents reached")
-	run.Assumption("runs tagged rc=active-remove-only-txn (actively persisted store, some committed transaction whose only effective operations are removes) belong to one input class with a known root cause; a second defect that only shows inside that class would be reported under the same prefix")
+	run.Assumption("runs tagged rc=active-remove-only-txn (actively persisted store, some committed transaction whose only effective operations are removes) belong to one input class with a known root cause (itemActionTracker.Remove did not register the item, so a remove-only commit was skipped; found by this check on /repo ce9bcdc0, repaired in /repo 7074c2ba; the tag stays so that a regression is recognised); a second defect that only shows inside that class would be reported under the same prefix")
 	run.Assumption("value domain {small, 5 KB, empty}; 3 keys per pre-state; sequence length and batching families as listed in coverage.families (bounded exhaustive within them, nothing beyond)")
 	run.Assumption("fresh-process dumps are taken by one new process per up to 32 store folders (cold caches between folders); the folders are read in place because a store records its absolute blob path")
 	run.Assumption("single-threaded: no concurrent transactions (C02-C06 cover those); L2 cache is the in-memory implementation")
